@@ -112,7 +112,7 @@ def maxsize : Int := 9223372036854775807
 /-! Integer views of the generated functions.  `toIntD` defaults to 0 when the generated
     function does not return an int (a Python error such as OverflowError): the driver reports
     such calls as errors (`FCfg.errAt`), and every theorem carries the hypothesis under which
-    the generated functions provably return ints (`Proofs/GenShape.lean`). -/
+    the generated functions provably return ints (`Proofs/Arith.lean (shape lemmas)`). -/
 def FCfg.lowerV (c : FCfg) (n : Nat) : PyV := Gen.get_size_lower_bound (.int n) (.str c.measure.name) c.threshold
 def FCfg.upperV (c : FCfg) (n : Nat) : PyV := Gen.get_size_upper_bound (.int n) (.str c.measure.name) c.threshold
 def FCfg.prefixV (c : FCfg) (n : Nat) : PyV := Gen.get_prefix_length (.int n) (.str c.measure.name) c.threshold c.qval
